@@ -1,4 +1,5 @@
 import OnetVerif.Model.Util
+import OnetVerif.Generated
 /-! Model for property C04: aggregation of children's messages in one `TreeNodeInstance`
 (`treenode.go`, `aggregate` and `dispatchMsgToProtocol`).  Sequential, because it only ever runs
 on the instance's single reader goroutine (property C05).  Core-only. -/
@@ -57,25 +58,391 @@ def kid (cfg : Cfg) (t : Nat) (m : Msg) : Bool := m.ty = t && !bypass cfg m
 /-- a dispatched batch that is an aggregation of type `t` (not a bypass singleton) -/
 def isAggBatch (cfg : Cfg) (t : Nat) (b : List Msg) : Bool := !b.isEmpty && b.all (kid cfg t)
 
+/-! ## Several instances on one server
+
+Every `TreeNodeInstance` owns its `msgQueue` (`newTreeNodeInstance`, treenode.go:78-92); the overlay hands a
+message to the instance its `To` token names (property C01).  A server is modelled as a table from instance
+ids to (configuration, queues); an event is (instance id, message). -/
+
+/-- all instances of one server: their configuration (each instance has its own tree position and its own
+registrations) and their queues -/
+structure Sys where
+  cfg : Nat → Cfg
+  q   : Nat → Queues
+
+/-- one message handed to instance `i`: only that instance's `aggregate` runs -/
+def sysStep (s : Sys) (i : Nat) (m : Msg) : Sys × Option (List Msg) :=
+  let r := aggregate (s.cfg i) (s.q i) m
+  ({ s with q := fun j => if j = i then r.1 else s.q j }, r.2)
+
+/-- a schedule of events over all instances; the output lists (instance, batch) in dispatch order -/
+def sysRun (s : Sys) : List (Nat × Msg) → Sys × List (Nat × List Msg)
+  | [] => (s, [])
+  | (i, m) :: l =>
+    let r := sysStep s i m
+    let r' := sysRun r.1 l
+    (r'.1, (r.2.toList.map fun b => (i, b)) ++ r'.2)
+
+/-! ## Registration: where the aggregation flag comes from (treenode.go:205-338)
+
+`RegisterHandler` and `RegisterChannelLength` look at the Go type of their argument by reflection: a
+parameter / channel element that is a *slice* of `struct{*TreeNode; M}` sets `AggregateMessages` for the
+message type `M`, a plain struct clears it.  The flag table is keyed by message type only
+(`messageTypeFlags[typ] = flags`), so a later registration of the same message type overwrites it. -/
+
+/-- the parameter form of a registered handler / the element form of a registered channel -/
+inductive Form where
+  | plain | slice
+  deriving DecidableEq, Repr
+
+/-- Go types as far as the registration functions inspect them -/
+inductive GoTy where
+  /-- a struct with `nFields` fields; `firstIsNode`: field 0 has type `*TreeNode`; `msgTy`: the type of field 1 -/
+  | strct (nFields : Nat) (firstIsNode : Bool) (msgTy : Nat)
+  | slice (e : GoTy)
+  /-- the interface type `error` -/
+  | err
+  /-- any other type -/
+  | other
+  deriving DecidableEq, Repr
+
+/-- what a protocol passes to the registration functions -/
+inductive Arg where
+  /-- a function value with one parameter of type `inp` and results `outs` -/
+  | fn (inp : GoTy) (outs : List GoTy)
+  /-- a channel value with element type `elem` and capacity `cap` (`isNil`: the zero channel) -/
+  | chanVal (elem : GoTy) (cap : Nat) (isNil : Bool)
+  /-- the address of a channel variable: the registration makes the channel -/
+  | chanPtr (elem : GoTy)
+  /-- a non-nil value that is neither a function, nor a channel, nor a pointer (a map) -/
+  | other
+  deriving DecidableEq, Repr
+
+inductive RegErr where
+  | notfunc | nret | rettype | notstruct | nfields | nonode | nilchan | notchan
+  deriving DecidableEq, Repr
+
+/-- `n.handlers`, `n.channels` (what is stored is reduced to form and capacity) and `n.messageTypeFlags` -/
+structure Reg where
+  handlers : Nat → Option Form
+  channels : Nat → Option (Form × Nat)
+  flags    : Nat → Bool
+
+def Reg.empty : Reg := { handlers := fun _ => none, channels := fun _ => none, flags := fun _ => false }
+
+/-- `if ci.Kind() == reflect.Slice { flags += AggregateMessages; ci = ci.Elem() }` -/
+def splitForm : GoTy → Form × GoTy
+  | .slice e => (.slice, e)
+  | t => (.plain, t)
+
+/-- the three checks on the struct type (kind, two fields, first field `*TreeNode`); yields the message type -/
+def checkStruct : GoTy → Except RegErr Nat
+  | .strct n first mt =>
+    if n ≠ 2 then .error .nfields else if !first then .error .nonode else .ok mt
+  | _ => .error .notstruct
+
+/-- `RegisterHandler` (treenode.go:294-328) -/
+def registerHandler (r : Reg) : Arg → Except RegErr Reg
+  | .fn inp outs =>
+    if outs.length ≠ 1 then .error .nret
+    else if outs ≠ [.err] then .error .rettype
+    else
+      match checkStruct (splitForm inp).2 with
+      | .error e => .error e
+      | .ok mt =>
+        .ok { r with handlers := fun t => if t = mt then some (splitForm inp).1 else r.handlers t,
+                     flags := fun t => if t = mt then (splitForm inp).1 == .slice else r.flags t }
+  | _ => .error .notfunc
+
+/-- the non-pointer part of `RegisterChannelLength` (treenode.go:236-261) for a channel of capacity `cap` -/
+def registerChanValue (r : Reg) (elem : GoTy) (cap : Nat) : Except RegErr Reg :=
+  match checkStruct (splitForm elem).2 with
+  | .error e => .error e
+  | .ok mt =>
+    .ok { r with channels := fun t => if t = mt then some ((splitForm elem).1, cap) else r.channels t,
+                 flags := fun t => if t = mt then (splitForm elem).1 == .slice else r.flags t }
+
+/-- `RegisterChannelLength` (treenode.go:226-261): a pointer makes the channel with the requested length and
+registers the value; a value channel keeps its own capacity -/
+def registerChannelLength (r : Reg) (a : Arg) (length : Nat) : Except RegErr Reg :=
+  match a with
+  | .chanPtr elem => registerChanValue r elem length
+  | .chanVal elem cap isNil => if isNil then .error .nilchan else registerChanValue r elem cap
+  | _ => .error .notchan
+
+/-- one registration call of a protocol constructor -/
+inductive RegCall where
+  | handler (a : Arg)
+  | channel (a : Arg) (length : Nat)
+  deriving DecidableEq, Repr
+
+def regCall (r : Reg) : RegCall → Except RegErr Reg
+  | .handler a => registerHandler r a
+  | .channel a n => registerChannelLength r a n
+
+/-- `RegisterHandlers` / `RegisterChannels` / `RegisterChannelsLength` (treenode.go:264-285, 331-338): the
+calls in order, stopping at the first error; what was registered before it stays registered -/
+def regMany (r : Reg) : List RegCall → Reg × Bool
+  | [] => (r, true)
+  | c :: cs =>
+    match regCall r c with
+    | .error _ => (r, false)
+    | .ok r' => regMany r' cs
+
+/-- a constructor's script: several such variadic calls, each reporting success or failure -/
+def regScript (r : Reg) : List (List RegCall) → Reg × List Bool
+  | [] => (r, [])
+  | g :: gs =>
+    let x := regMany r g
+    let y := regScript x.1 gs
+    (y.1, x.2 :: y.2)
+
+/-- where `dispatchMsgToProtocol` (treenode.go:577-586) sends a batch: channels first, then handlers -/
+inductive Target where
+  | chan (f : Form) (cap : Nat) | handler (f : Form) | none
+  deriving DecidableEq, Repr
+
+def Reg.target (r : Reg) (t : Nat) : Target :=
+  match r.channels t with
+  | some (f, c) => .chan f c
+  | none => match r.handlers t with
+    | some f => .handler f
+    | none => .none
+
+/-- the flag of every handled type says what its dispatch target takes -/
+def Reg.consistent (r : Reg) : Prop :=
+  ∀ t, match r.target t with
+       | .chan f _ => r.flags t = (f == .slice)
+       | .handler f => r.flags t = (f == .slice)
+       | .none => True
+
+/-! ## Dispatch to handlers and channels (treenode.go:387-424, 447-496) -/
+
+/-- what became of a batch that `aggregate` released -/
+inductive Outcome where
+  /-- handler calls, in order: one call with the whole batch (slice form) or one call per message -/
+  | calls (cs : List (List Msg))
+  /-- items put into the type's channel (the whole batch as one item, or one item per message) -/
+  | sent (items : List (List Msg))
+  /-- nothing delivered: no handler/channel for the type, a plain channel without room, or a channel whose
+  form contradicts the flag (reflection panics, `dispatchChannel` recovers) -/
+  | dropped
+  /-- a handler whose form contradicts the flag: reflection panics on the reader goroutine -/
+  | crash
+  /-- `Send` on a slice channel without room blocks the reader goroutine -/
+  | blocked
+  deriving DecidableEq, Repr
+
+/-- one instance: position in its tree, registrations, aggregation queues, content of its channels -/
+structure IState where
+  isRoot    : Bool := true
+  nChildren : Nat := 0
+  reg       : Reg := Reg.empty
+  q         : Queues := emptyQ
+  chans     : Nat → List (List Msg) := fun _ => []
+
+def IState.cfg (s : IState) : Cfg := { isRoot := s.isRoot, nChildren := s.nChildren, agg := s.reg.flags }
+
+/-- `dispatchChannel`, one-by-one branch: every message needs a free slot (`out.Len() < out.Cap()`), the
+first one that finds none ends the dispatch with an error -/
+def sendPlain (cap : Nat) (buf : List (List Msg)) : List Msg → List (List Msg) × List (List Msg)
+  | [] => (buf, [])
+  | m :: ms =>
+    if buf.length < cap then
+      let r := sendPlain cap (buf ++ [[m]]) ms
+      (r.1, [m] :: r.2)
+    else (buf, [])
+
+/-- `dispatchMsgToProtocol` after `aggregate` released batch `b` of type `mt` -/
+def dispatch (s : IState) (mt : Nat) (b : List Msg) : IState × Outcome :=
+  match s.reg.target mt with
+  | .chan f cap =>
+    if s.reg.flags mt then
+      match f with
+      | .slice =>
+        if (s.chans mt).length < cap then
+          ({ s with chans := fun t => if t = mt then s.chans mt ++ [b] else s.chans t }, .sent [b])
+        else (s, .blocked)
+      | .plain => (s, .dropped)
+    else
+      match f with
+      | .plain =>
+        let r := sendPlain cap (s.chans mt) b
+        ({ s with chans := fun t => if t = mt then r.1 else s.chans t },
+          if r.2.isEmpty then .dropped else .sent r.2)
+      | .slice => (s, .dropped)
+  | .handler f =>
+    if s.reg.flags mt then
+      match f with
+      | .slice => (s, .calls [b])
+      | .plain => (s, .crash)
+    else
+      match f with
+      | .plain => (s, .calls (b.map fun m => [m]))
+      | .slice => (s, .crash)
+  | .none => (s, .dropped)
+
+/-- one accepted message: `aggregate`, then `dispatch` of what it released -/
+def istep (s : IState) (m : Msg) : IState × Option Outcome :=
+  let r := aggregate s.cfg s.q m
+  let s' := { s with q := r.1 }
+  match r.2 with
+  | none => (s', none)
+  | some b =>
+    let d := dispatch s' m.ty b
+    (d.1, some d.2)
+
+/-- the protocol empties the channel of type `mt` -/
+def irecv (s : IState) (mt : Nat) : IState × List (List Msg) :=
+  ({ s with chans := fun t => if t = mt then [] else s.chans t }, s.chans mt)
+
+/-- the reader goroutine of one instance over a list of accepted messages: what became of every released batch -/
+def irun (s : IState) : List Msg → IState × List Outcome
+  | [] => (s, [])
+  | m :: l =>
+    let r := istep s m
+    let r' := irun r.1 l
+    (r'.1, r.2.toList ++ r'.2)
+
+/-- the handler calls among the outcomes, in order -/
+def callsOf : List Outcome → List (List Msg)
+  | [] => []
+  | .calls cs :: os => cs ++ callsOf os
+  | _ :: os => callsOf os
+
+/-- the message type and form a registration call registers when it is well-formed -/
+def formOf : RegCall → Option (Nat × Form)
+  | .handler (.fn inp _) =>
+    match (splitForm inp).2 with
+    | .strct _ _ mt => some (mt, (splitForm inp).1)
+    | _ => none
+  | .channel (.chanVal e _ _) _ =>
+    match (splitForm e).2 with
+    | .strct _ _ mt => some (mt, (splitForm e).1)
+    | _ => none
+  | .channel (.chanPtr e) _ =>
+    match (splitForm e).2 with
+    | .strct _ _ mt => some (mt, (splitForm e).1)
+    | _ => none
+  | _ => none
+
 namespace Drv
+
+/-- an instance of the multi-instance ops: its state and whether the harness protocol empties its channels
+after every message (the standard recording protocol does, the registration protocol waits for `recv`) -/
+structure Inst where
+  st        : IState
+  autoDrain : Bool
 
 structure State where
   cfg : Cfg := { isRoot := true, nChildren := 0, agg := fun _ => false }
   q   : Queues := emptyQ
+  insts : List (Nat × Inst) := []
 
 def init : State := {}
 
 def showMsg (m : Msg) : String :=
   s!"{m.ty}/{match m.src with | none => "p" | some i => toString i}/{m.val}"
 
+def showBatch (b : List Msg) : String := ",".intercalate (b.map showMsg)
+
+def showBatches (bs : List (List Msg)) : String :=
+  if bs.isEmpty then "-" else ";".intercalate (bs.map showBatch)
+
+def good (f : Form) (t : Nat) : GoTy :=
+  match f with
+  | .plain => .strct 2 true t
+  | .slice => .slice (.strct 2 true t)
+
+/-- the menu of registration arguments of the harness's registration protocol:
+`fs<t>`/`fp<t>` well-formed handler taking a slice / a struct of message type t; `f0<t>` no result, `f2<t>` two
+results, `fi<t>` result `int`, `fx` parameter `int`, `fss<t>` parameter `[][]struct`, `f3<t>` struct with three
+fields, `f1` struct with one field, `fn<t>` first field not `*TreeNode`;
+`cs<t>:<cap>`/`cp<t>:<cap>` channel values, `qs<t>`/`qp<t>` addresses of channel variables, `cnil<t>` a nil
+channel, `cx` `chan int`, `c3<t>`, `cn<t>` as above; `o` a map. -/
+def arg? (tok : String) : Option Arg :=
+  let num (s : String) : Option Nat := s.toNat?
+  if tok = "o" then some .other
+  else if tok = "fx" then some (.fn .other [.err])
+  else if tok = "f1" then some (.fn (.strct 1 true 0) [.err])
+  else if tok = "cx" then some (.chanVal .other 5 false)
+  else if tok.startsWith "fss" then (num (tok.drop 3).toString).map fun t => .fn (.slice (.slice (.strct 2 true t))) [.err]
+  else if tok.startsWith "fs" then (num (tok.drop 2).toString).map fun t => .fn (good .slice t) [.err]
+  else if tok.startsWith "fp" then (num (tok.drop 2).toString).map fun t => .fn (good .plain t) [.err]
+  else if tok.startsWith "f0" then (num (tok.drop 2).toString).map fun t => .fn (good .plain t) []
+  else if tok.startsWith "f2" then (num (tok.drop 2).toString).map fun t => .fn (good .plain t) [.err, .err]
+  else if tok.startsWith "fi" then (num (tok.drop 2).toString).map fun t => .fn (good .plain t) [.other]
+  else if tok.startsWith "f3" then (num (tok.drop 2).toString).map fun t => .fn (.strct 3 true t) [.err]
+  else if tok.startsWith "fn" then (num (tok.drop 2).toString).map fun t => .fn (.strct 2 false t) [.err]
+  else if tok.startsWith "cnil" then (num (tok.drop 4).toString).map fun t => .chanVal (good .plain t) 0 true
+  else if tok.startsWith "c3" then (num (tok.drop 2).toString).map fun t => .chanVal (.strct 3 true t) 5 false
+  else if tok.startsWith "cn" then (num (tok.drop 2).toString).map fun t => .chanVal (.strct 2 false t) 5 false
+  else if tok.startsWith "qs" then (num (tok.drop 2).toString).map fun t => .chanPtr (good .slice t)
+  else if tok.startsWith "qp" then (num (tok.drop 2).toString).map fun t => .chanPtr (good .plain t)
+  else if tok.startsWith "cs" || tok.startsWith "cp" then
+    match (tok.drop 2).toString.splitOn ":" with
+    | [t, c] => match num t, num c with
+      | some t, some c => some (.chanVal (good (if tok.startsWith "cs" then .slice else .plain) t) c false)
+      | _, _ => none
+    | _ => none
+  else none
+
+/-- one variadic registration call: `H=a+b+…` (`RegisterHandlers`), `C=a+b+…` (`RegisterChannels`, default
+length), `L<n>=a+b+…` (`RegisterChannelsLength n`) -/
+def group? (defaultLen : Nat) (tok : String) : Option (List RegCall) :=
+  match tok.splitOn "=" with
+  | [k, as] =>
+    match (as.splitOn "+").mapM arg? with
+    | none => none
+    | some args =>
+      if k = "H" then some (args.map .handler)
+      else if k = "C" then some (args.map fun a => .channel a defaultLen)
+      else if k.startsWith "L" then ((k.drop 1).toString.toNat?).map fun n => args.map fun a => .channel a n
+      else none
+  | _ => none
+
+def script? (defaultLen : Nat) (s : String) : Option (List (List RegCall)) :=
+  if s = "-" then some [] else (s.splitOn ";").mapM (group? defaultLen)
+
+/-- the registrations of the standard recording protocol (harness/fix/proto.go): handlers for M1 (slice) and
+M3, channels of length 1000 for M2 (slice) and M4 -/
+def stdScript : List (List RegCall) :=
+  [[.handler (.fn (good .slice 1) [.err]), .handler (.fn (good .plain 3) [.err])],
+   [.channel (.chanPtr (good .slice 2)) 1000, .channel (.chanPtr (good .plain 4)) 1000]]
+
+def lookup (l : List (Nat × Inst)) (i : Nat) : Option Inst := (l.find? fun p => p.1 = i).map Prod.snd
+
+def store (l : List (Nat × Inst)) (i : Nat) (x : Inst) : List (Nat × Inst) :=
+  (i, x) :: l.filter fun p => p.1 ≠ i
+
+/-- the message types the harness uses -/
+def tys : List Nat := [1, 2, 3, 4]
+
+def drainAll (s : IState) : IState × List (List Msg) :=
+  tys.foldl (fun acc t => let r := irecv acc.1 t; (r.1, acc.2 ++ r.2)) (s, [])
+
+def showOutcome : Outcome → String
+  | .calls cs => showBatches cs
+  | .sent _ => "-"
+  | .dropped => "-"
+  | .crash => "crash"
+  | .blocked => "blocked"
+
 /-- `cfg <root|inner> <nChildren> <aggregated types, comma separated>` and
-`msg <type> <p|child index> <value>`; the reply to `msg` is the dispatched batch or `-`. -/
+`msg <type> <p|child index> <value>`; the reply to `msg` is the dispatched batch or `-`.
+
+Several instances, registrations and channels:
+`inst <id> <root|inner> <k> std` creates an instance of the standard recording protocol,
+`inst <id> <root|inner> <k> reg <script>` one whose constructor runs the registration
+script (`RegisterChannels` uses `Generated.defaultChannelLength`) (reply: `ok`/`err` per variadic call); `imsg <id> <type> <p|child> <value>` hands a message to that
+instance (reply: the handler calls it caused, `;`-separated; for an instance that empties its channels after every
+message also what the channels held); `recv <id>` empties the instance's channels (reply: the items). -/
 def step (s : State) (toks : List String) : State × String :=
   match toks with
   | ["cfg", r, n, aggs] =>
     match n.toNat?, Util.natList aggs, (if r = "root" then some true else if r = "inner" then some false else none) with
     | some n, some l, some isRoot =>
-      ({ cfg := { isRoot := isRoot, nChildren := n, agg := fun t => l.contains t }, q := emptyQ }, "ok")
+      ({ s with cfg := { isRoot := isRoot, nChildren := n, agg := fun t => l.contains t }, q := emptyQ }, "ok")
     | _, _, _ => (s, "bad-op")
   | ["msg", t, src, v] =>
     let src? : Option (Option Nat) := if src = "p" then some none else src.toNat?.map some
@@ -88,6 +455,50 @@ def step (s : State) (toks : List String) : State × String :=
         | some b => ",".intercalate (b.map showMsg))
     | _, _, _ => (s, "bad-op")
   | ["rereg"] => (s, "ok")   -- an equal copy of the tree is registered again: nothing changes
+  | ["inst", id, r, n, "std"] =>
+    match id.toNat?, n.toNat?, (if r = "root" then some true else if r = "inner" then some false else none) with
+    | some id, some n, some isRoot =>
+      let reg := (regScript Reg.empty stdScript).1
+      ({ s with insts := store s.insts id { st := { isRoot := isRoot, nChildren := n, reg := reg }, autoDrain := true } }, "ok")
+    | _, _, _ => (s, "bad-op")
+  | ["inst", id, r, n, "reg", scr] =>
+    match id.toNat?, n.toNat?, (if r = "root" then some true else if r = "inner" then some false else none) with
+    | some id, some n, some isRoot =>
+      match script? Generated.defaultChannelLength scr with
+      | none => (s, "bad-op")
+      | some sc =>
+        let x := regScript Reg.empty sc
+        ({ s with insts := store s.insts id { st := { isRoot := isRoot, nChildren := n, reg := x.1 }, autoDrain := false } },
+          if x.2.isEmpty then "-" else ",".intercalate (x.2.map fun b => if b then "ok" else "err"))
+    | _, _, _ => (s, "bad-op")
+  | ["imsg", id, t, src, v] =>
+    let src? : Option (Option Nat) := if src = "p" then some none else src.toNat?.map some
+    match id.toNat?, t.toNat?, src?, v.toNat? with
+    | some id, some t, some src, some v =>
+      match lookup s.insts id with
+      | none => (s, "bad-op")
+      | some x =>
+        let r := istep x.st { ty := t, src := src, val := v }
+        match r.2 with
+        | some .crash => ({ s with insts := store s.insts id { x with st := r.1 } }, "crash")
+        | some .blocked => ({ s with insts := store s.insts id { x with st := r.1 } }, "blocked")
+        | o =>
+          let calls := match o with | some (.calls cs) => cs | _ => []
+          if x.autoDrain then
+            let d := drainAll r.1
+            ({ s with insts := store s.insts id { x with st := d.1 } }, showBatches (calls ++ d.2))
+          else
+            ({ s with insts := store s.insts id { x with st := r.1 } }, showBatches calls)
+    | _, _, _, _ => (s, "bad-op")
+  | ["recv", id] =>
+    match id.toNat? with
+    | some id =>
+      match lookup s.insts id with
+      | none => (s, "bad-op")
+      | some x =>
+        let d := drainAll x.st
+        ({ s with insts := store s.insts id { x with st := d.1 } }, showBatches d.2)
+    | none => (s, "bad-op")
   | _ => (s, "bad-op")
 
 end Drv
